@@ -856,3 +856,112 @@ def mutate_contract(rng, code, B):
             v = rng.choice(B) & ((1 << (8 * w)) - 1)
             b[p + 1:p + 1 + w] = v.to_bytes(w, "big")
     return bytes(b), how
+
+
+def poll_loops(rng):
+    """Programs that spend iterations in each of the polled loops: long straight-line code, the four bulk-copy
+    opcodes and CALL return data with constant sizes, many values / type variables / classes / constant slots."""
+    a = evm.Asm()
+    feats = set()
+    parts = rng.sample(["straight", "calldatacopy", "codecopy", "extcodecopy", "returndatacopy", "call-ret", "slots",
+                        "values"], rng.randint(2, 5))
+    for p in parts:
+        feats.add(p)
+        size = rng.choice([32, 64, 96, 200, 394, 1000, 3000])
+        if p == "straight":
+            for _ in range(rng.randint(5, 60)):
+                a.emit(rng.randrange(1, 200), "POP")
+        elif p == "calldatacopy":
+            a.emit(size, rng.choice([0, 4]), rng.choice([0, 64]), "CALLDATACOPY")
+        elif p == "codecopy":
+            a.emit(size, 0, 0, "CODECOPY")
+        elif p == "extcodecopy":
+            a.emit(size, 0, 0, "CALLER", "EXTCODECOPY")
+        elif p == "returndatacopy":
+            a.emit(size, 0, 0, "RETURNDATACOPY")
+        elif p == "call-ret":
+            a.emit(size, 0, 0, 0, 0, "CALLER", "GAS", rng.choice(["CALL", "CALLCODE"]), "POP")
+            if rng.random() < 0.5:
+                a.emit(size, 0, 0, 0, "CALLER", "GAS", rng.choice(["STATICCALL", "DELEGATECALL"]), "POP")
+        elif p == "slots":
+            for s in rng.sample(range(0, 40), rng.randint(2, 12)):
+                if rng.random() < 0.5:
+                    a.emit("CALLVALUE", s if s else ("push", 0, 1), "SSTORE")
+                else:
+                    a.emit(s if s else ("push", 0, 1), "SLOAD", ("push", (1 << 160) - 1, 20), "AND", 0, "MSTORE")
+        elif p == "values":
+            for i in range(rng.randint(2, 10)):
+                a.emit(4 + 32 * i, "CALLDATALOAD", "CALLER", rng.choice(["ADD", "AND", "EQ", "LT"]), 32 * (i % 4), "MSTORE")
+    if rng.random() < 0.5:
+        a.emit("CALLVALUE")
+        a.jumpi("X")
+        a.emit(0, 0, "RETURN")
+        a.label("X")
+        a.emit(1, 1, "SSTORE")
+    a.emit("STOP")
+    return a.assemble(), feats
+
+
+def multi_evidence(rng):
+    """Every slot gets 2-4 pieces of typing evidence of different kinds, each in its own dispatch branch."""
+    a = evm.Asm()
+    nslots = rng.randint(1, 4)
+    slots = rng.sample([0, 1, 2, 3, 5, 8, 13], nslots)
+    branches = []
+    kinds = ["dynarray", "mapping", "bool-write", "address-write", "masked-write", "packed-write", "signed-use",
+             "numeric-use", "copy-from", "plain-read", "bytes32-compare"]
+    for s in slots:
+        for k in rng.sample(kinds, rng.randint(2, 4)):
+            branches.append((s, k))
+    rng.shuffle(branches)
+    a.emit(0, "CALLDATALOAD", 0xe0, "SHR")
+    for i in range(len(branches)):
+        a.emit("DUP1", ("push", 0xe0000000 + i, 4), "EQ")
+        a.jumpi("B%d" % i)
+    a.emit("STOP")
+    feats = set()
+    for i, (s, k) in enumerate(branches):
+        a.label("B%d" % i)
+        sp = s if s else ("push", 0, 1)
+        feats.add(k)
+        if k == "dynarray":
+            a.emit(sp, 0, "MSTORE", 0x20, 0, "SHA3", 4, "CALLDATALOAD", "ADD")
+            if rng.random() < 0.5:
+                a.emit("SLOAD", 0, "MSTORE")
+            else:
+                a.emit("CALLVALUE", "SWAP1", "SSTORE")
+        elif k == "mapping":
+            a.emit("CALLER", 0, "MSTORE", sp, 0x20, "MSTORE", 0x40, 0, "SHA3")
+            if rng.random() < 0.5:
+                a.emit("SLOAD", 0, "MSTORE")
+            else:
+                a.emit("CALLVALUE", "SWAP1", "SSTORE")
+        elif k == "bool-write":
+            a.emit("CALLVALUE", "ISZERO", sp, "SSTORE")
+        elif k == "address-write":
+            if rng.random() < 0.5:
+                a.emit("CALLER", sp, "SSTORE")
+            else:
+                a.emit(4, "CALLDATALOAD", ("push", (1 << 160) - 1, 20), "AND", sp, "SSTORE")
+        elif k == "masked-write":
+            w = rng.choice([8, 16, 32, 64, 128])
+            a.emit(4, "CALLDATALOAD", ("push", (1 << w) - 1, None), "AND", sp, "SSTORE")
+        elif k == "packed-write":
+            off = rng.choice([8, 16, 160])
+            w = rng.choice([8, 16, 64])
+            m = (1 << w) - 1
+            a.emit(sp, "SLOAD", ("push", evm.M256 ^ (m << off), 32), "AND", 4, "CALLDATALOAD", ("push", m, None), "AND",
+                   ("push", 1 << off, None), "MUL", "OR", sp, "SSTORE")
+        elif k == "signed-use":
+            a.emit(4, "CALLDATALOAD", sp, "SLOAD", rng.choice(["SDIV", "SLT", "SGT", "SMOD"]), 0, "MSTORE")
+        elif k == "numeric-use":
+            a.emit(4, "CALLDATALOAD", sp, "SLOAD", rng.choice(["ADD", "MUL", "LT", "DIV"]), 0, "MSTORE")
+        elif k == "copy-from":
+            other = rng.choice(slots)
+            a.emit(other if other else ("push", 0, 1), "SLOAD", sp, "SSTORE")
+        elif k == "plain-read":
+            a.emit(sp, "SLOAD", 0, "MSTORE")
+        elif k == "bytes32-compare":
+            a.emit(sp, "SLOAD", ("push", rng.getrandbits(256), 32), "EQ", 0, "MSTORE")
+        a.emit("STOP")
+    return a.assemble(), feats
